@@ -312,6 +312,3 @@ Proof.
 Qed.
 End RestrictDir.
 
-Print Assumptions restrict_dir_wf.
-Print Assumptions restrict_dir_eval.
-Print Assumptions snap1_restrict.
